@@ -792,3 +792,168 @@ func (p *Program) cone(roots ...*ssa.Function) map[*ssa.Function]bool {
 	}
 	return out
 }
+
+// countPaths explores every acyclic path from the point just after start (or the
+// function entry) to the first instruction satisfying isEnd and returns the minimum
+// and maximum number of instructions satisfying isM met on such a path, plus the
+// number of distinct end instructions reached. Back edges are not followed.
+func countPaths(fn *ssa.Function, start ssa.Instruction, isEnd, isM func(ssa.Instruction) bool) (min, max, ends int) {
+	type res struct {
+		min, max int
+		ok       bool
+	}
+	memo := map[*ssa.BasicBlock]res{}
+	onStack := map[*ssa.BasicBlock]bool{}
+	endSeen := map[ssa.Instruction]bool{}
+	var fromBlock func(b *ssa.BasicBlock, idx int) res
+	fromBlock = func(b *ssa.BasicBlock, idx int) res {
+		if idx == 0 {
+			if r, ok := memo[b]; ok {
+				return r
+			}
+			if onStack[b] {
+				return res{}
+			}
+			onStack[b] = true
+			defer func() { onStack[b] = false }()
+		}
+		n := 0
+		for i := idx; i < len(b.Instrs); i++ {
+			in := b.Instrs[i]
+			if isEnd(in) {
+				endSeen[in] = true
+				r := res{n, n, true}
+				if idx == 0 {
+					memo[b] = r
+				}
+				return r
+			}
+			if isM(in) {
+				n++
+			}
+		}
+		out := res{}
+		for _, s := range b.Succs {
+			r := fromBlock(s, 0)
+			if !r.ok {
+				continue
+			}
+			if !out.ok {
+				out = res{r.min + n, r.max + n, true}
+			} else {
+				if r.min+n < out.min {
+					out.min = r.min + n
+				}
+				if r.max+n > out.max {
+					out.max = r.max + n
+				}
+			}
+		}
+		if idx == 0 {
+			memo[b] = out
+		}
+		return out
+	}
+	var r res
+	if start == nil {
+		r = fromBlock(fn.Blocks[0], 0)
+	} else {
+		// treat as partial block
+		b := start.Block()
+		n := 0
+		done := false
+		for i := idxIn(start) + 1; i < len(b.Instrs) && !done; i++ {
+			in := b.Instrs[i]
+			if isEnd(in) {
+				endSeen[in] = true
+				r = res{n, n, true}
+				done = true
+				break
+			}
+			if isM(in) {
+				n++
+			}
+		}
+		if !done {
+			for _, s := range b.Succs {
+				x := fromBlock(s, 0)
+				if !x.ok {
+					continue
+				}
+				if !r.ok {
+					r = res{x.min + n, x.max + n, true}
+				} else {
+					if x.min+n < r.min {
+						r.min = x.min + n
+					}
+					if x.max+n > r.max {
+						r.max = x.max + n
+					}
+				}
+			}
+		}
+	}
+	if !r.ok {
+		return -1, -1, 0
+	}
+	return r.min, r.max, len(endSeen)
+}
+
+// rangeLoopOf returns the loop (head, body entry) of a `for x := range ch` over the
+// channel value ch in fn: the head block holds the `<-ch,ok` receive.
+func rangeChanLoops(fn *ssa.Function) []*loop {
+	var out []*loop
+	for _, l := range loopsOf(fn) {
+		for _, in := range l.head.Instrs {
+			if u, ok := in.(*ssa.UnOp); ok && u.Op == token.ARROW && u.CommaOk {
+				out = append(out, l)
+			}
+		}
+	}
+	return out
+}
+
+func isLoopHeadStart(l *loop) func(ssa.Instruction) bool {
+	return func(in ssa.Instruction) bool { return in.Block() == l.head && idxIn(in) == 0 }
+}
+
+// reachingStores returns the stores to the local variable a that may reach the load
+// (stores made by closures are always included; stores in the loading function are
+// filtered by reaching definitions).
+func reachingStores(load *ssa.UnOp, a *ssa.Alloc) []*ssa.Store {
+	all := storesTo(a.Parent(), a)
+	fn := load.Parent()
+	var out []*ssa.Store
+	for _, s := range all {
+		if s.Parent() != fn {
+			out = append(out, s)
+			continue
+		}
+		reaches := reachAvoiding(fn, s, func(in ssa.Instruction) bool { return in == ssa.Instruction(load) }, func(in ssa.Instruction) bool {
+			if o, ok := in.(*ssa.Store); ok && o != s && o.Addr == s.Addr {
+				return true
+			}
+			return false
+		})
+		if reaches {
+			out = append(out, s)
+		}
+	}
+	return out
+}
+
+// calleesAt resolves the callees of a call site with the VTA call graph.
+func (p *Program) calleesAt(site ssa.CallInstruction) []*ssa.Function {
+	g := p.VTA()
+	n := g.Nodes[site.Parent()]
+	if n == nil {
+		return nil
+	}
+	var out []*ssa.Function
+	for _, e := range n.Out {
+		if e.Site == site && e.Callee.Func != nil {
+			out = append(out, e.Callee.Func)
+		}
+	}
+	return out
+}
